@@ -2,6 +2,6 @@ SPECIFICATION MCSpec
 CONSTANTS
   MaxN = 4
   Ws = {1, 2, 3}
-  Bs = {2}
+  Bs = {0, 1, 2}
 INVARIANT InvAll
 CHECK_DEADLOCK FALSE
